@@ -74,6 +74,19 @@ KERNEL['C09'] = {
     'tech': SYS_TECH,
 }
 
+KERNEL['C16'] = {
+    'text': 'system runs of the real scheduler with A (time-based) and 1-2 generator agents connected with async_requests=True: the solver decides which get_data/set_data requests are made, all step sizes and when each request and reply is delivered; on every path a value set by an agent appears in exactly the next step of A under the right source id and never again, A never begins a later step while an agent step is unfinished (lazy on and off), and requests without an async connection make run() fail with ScenarioError',
+    'ref': 'DESIGN.md section 5 C16',
+    'note': 'agents <= 2, K <= 3 (thorough 4), in-process generator agents with a parked latency point before every request; remote agents outside; get_data values not judged',
+    'tech': SYS_TECH,
+}
+KERNEL['C14'] = {
+    'text': 'system runs of the real World.run() in which one simulator fails at a solver-chosen request index (setup_done, each step, each get_data) by a handler exception or a closed-connection exception from send(), before or instead of the reply: on every path run() ends with an exception after finitely many deliveries, every other simulator is finalized exactly once and gets no request afterwards, the loop is closed and no task is pending when it is closed; all reply orders including replies arriving during shutdown',
+    'ref': 'DESIGN.md section 5 C14',
+    'note': 'in-process observables only: process death, sockets, child processes and the RemoteProxy reader task are outside (I/O, nothing for a solver to decide); N=2 (thorough 3), K=2',
+    'tech': SYS_TECH + '; fault point as a symbolic request index',
+}
+
 NOT_APPLICABLE = {}
 
 
